@@ -21,18 +21,19 @@ type FuncWork struct {
 	Kind    string  `json:"kind"` // after | before | once | retry | retrydelay
 	N       int     `json:"n"`
 	Calls   int     `json:"calls"`
-	Pattern int     `json:"pattern"`  // bit i set: attempt i of the retried callback fails
-	DelayNs int64   `json:"delay_ns"` // RetryWithDelay
-	ExpNs   int64   `json:"exp_ns"`   // default expiry of the cache behind Before/Once (<=0: never)
-	GapsNs  []int64 `json:"gaps_ns"`  // simulated sleep before call i
-	LatNs   int64   `json:"lat_ns"`   // simulated latency of the callback (callback_slow)
-	Base    int     `json:"base"`     // execution k of the callback returns Base+k: 0 makes the first result the zero value
+	Pattern int     `json:"pattern"`          // bit i set: attempt i of the retried callback fails
+	DelayNs int64   `json:"delay_ns"`         // RetryWithDelay
+	ExpNs   int64   `json:"exp_ns"`           // default expiry of the cache behind Before/Once (<=0: never)
+	GapsNs  []int64 `json:"gaps_ns"`          // simulated sleep before call i
+	LatNs   int64   `json:"lat_ns"`           // simulated latency of the callback (callback_slow)
+	Shared  bool    `json:"shared,omitempty"` // before: the cache was first used by a Once wrapper (both memoise under one fixed key)
+	Base    int     `json:"base"`             // execution k of the callback returns Base+k: 0 makes the first result the zero value
 }
 
 func (w *FuncWork) Sim() SimSpec { return w.P }
 
 func (w *FuncWork) Key() string {
-	return fmt.Sprintf("c18/%s/n=%d/calls=%d/pat=%d/d=%d/exp=%d/gaps=%v/lat=%d/tf=%v", w.Kind, w.N, w.Calls, w.Pattern, w.DelayNs, w.ExpNs, w.GapsNs, w.LatNs, w.P.TimeFaults) + fmt.Sprintf("/base=%d", w.Base)
+	return fmt.Sprintf("c18/%s/n=%d/calls=%d/pat=%d/d=%d/exp=%d/gaps=%v/lat=%d/tf=%v", w.Kind, w.N, w.Calls, w.Pattern, w.DelayNs, w.ExpNs, w.GapsNs, w.LatNs, w.P.TimeFaults) + fmt.Sprintf("/base=%d/shared=%v", w.Base, w.Shared)
 }
 
 func (w *FuncWork) ShapeName() string {
@@ -111,6 +112,10 @@ func (w *FuncWork) Exec(x *Exec) {
 		case "before":
 			n := w.N
 			c := cache.New[string, int](time.Duration(w.ExpNs), 0)
+			if w.Shared {
+				// another wrapper has memoised into this cache before (not part of the recorded history)
+				gogu.Once[string, int, int](c, func() int { return 777 })
+			}
 			for i := 0; i < w.Calls; i++ {
 				call(i, func(fc *fcall) { fc.Res = gogu.Before[string, int, int](&n, c, func() int { return run(false) }) })
 			}
@@ -235,7 +240,8 @@ func (w *FuncWork) Post(out *RunOut) {
 				// the n-th call serves its own result through the cache: under an injected stall inside the
 				// call the entry can expire before it is read back, so this is asserted only when the
 				// call's window is shorter than the entry's lifetime
-				if (i+1 < w.N || never || c.TR-c.TI < w.ExpNs) && c.Res != ex[0].Val {
+				// (on a cache another wrapper has used, the fixed key collides: only the counts are asserted)
+				if !(w.Shared && i+1 == w.N) && (i+1 < w.N || never || c.TR-c.TI < w.ExpNs) && c.Res != ex[0].Val {
 					fail("result", "Before(n=%d): call number %d returned %d but the callback it ran returned %d", w.N, i+1, c.Res, ex[0].Val)
 					break
 				}
@@ -249,7 +255,7 @@ func (w *FuncWork) Post(out *RunOut) {
 				}
 				// "later calls return the result of the last run": asserted while the cache entry that
 				// holds that result is live at every instant of the call
-				if lastRun != nil && (never || c.TR < dlo) {
+				if lastRun != nil && !w.Shared && (never || c.TR < dlo) {
 					timed++
 					if c.Res != lastRun.Val {
 						fail("memo", "Before(n=%d): call number %d returned %d; the last run (call number %d) returned %d and its cache entry is still live (deadline %s)", w.N, i+1, c.Res, w.N, lastRun.Val, deadlineStr(never, dlo, dhi))
@@ -406,6 +412,7 @@ func genC18(r *simrt.Rand, tier string, idx uint64) Workload {
 	case "before":
 		w.Calls = int((sub / 11) % 13)
 		w.ExpNs = []int64{-1, 0, 50 * ms}[r.Intn(3)]
+		w.Shared = r.Intn(5) == 0
 	case "once":
 		w.Calls = 1 + int((sub/11)%8)
 		w.ExpNs = []int64{-1, 0, 40 * ms, 40 * ms}[r.Intn(4)]
